@@ -878,6 +878,12 @@ where
         } else {
             #[cfg(nucleo_verif)]
             crate::verif::routine_entered(6);
+            // The halves are sorted by fresh calls that don't know whether this partition was
+            // balanced, so an imbalanced partition must be charged to their budget here.
+            // Otherwise `limit` is never decremented on this path and an adversarial input
+            // leads to quadratic time and a recursion as deep as the slice is long.
+            // `limit` is nonzero here (checked at the top of the loop).
+            let limit = if was_balanced { limit } else { limit - 1 };
             // Sort the left and right half in parallel.
             let (canceled1, canceled2) = rayon::join(
                 || recurse(left, is_less, pred, limit, canceled),
